@@ -21,8 +21,8 @@ def helpers_version():
     return m.group(1)
 
 
-def fixture_source(pkgname, pkgid):
-    t = open(os.path.join(SRC, "fxtpl", "fx.go.tpl")).read()
+def fixture_source(pkgname, pkgid, types_only=False):
+    t = open(os.path.join(SRC, "fxtpl", "fx_types.go.tpl" if types_only else "fx.go.tpl")).read()
     return t.replace("__PKG__", pkgname).replace("__PKGID__", pkgid).replace("__SUFFIX__", "")
 
 
@@ -33,7 +33,8 @@ class Probe:
     """work/ : go.mod (module probe.test), objmod/ (module obj.test), rt/, fx/ (probe.test/fx),
     ext/<n>/ (fixture modules at foreign import paths), g<id>/ (generated packages), main.go"""
 
-    def __init__(self, name="probe", ext_paths=(), inner_paths=("probe.test/fx",)):
+    def __init__(self, name="probe", ext_paths=(), inner_paths=("probe.test/fx",), types_only=False):
+        self.types_only = types_only
         self.dir = core.subdir(name)
         if os.listdir(self.dir):
             shutil.rmtree(self.dir)
@@ -57,7 +58,7 @@ class Probe:
             d = os.path.join(self.dir, ip[len("probe.test/"):])
             os.makedirs(d, exist_ok=True)
             with open(os.path.join(d, "fx.go"), "w") as f:
-                f.write(fixture_source(re.sub(r"[^A-Za-z0-9_]", "_", ip.split("/")[-1]), ip).replace('"probe.test/obj"', '"obj.test/obj"'))
+                f.write(fixture_source(re.sub(r"[^A-Za-z0-9_]", "_", ip.split("/")[-1]), ip, types_only).replace('"probe.test/obj"', '"obj.test/obj"'))
         for i, (modpath, pkgpath) in enumerate(ext_paths):
             # module `modpath` providing package `pkgpath` (modpath is a prefix of pkgpath)
             md = os.path.join(self.dir, "ext", "m%d" % i)
@@ -69,14 +70,14 @@ class Probe:
                 req.append("%s v0.0.0" % modpath)
                 rep.append("%s => ./ext/m%d" % (modpath, i))
             with open(os.path.join(md, sub, "fx.go"), "w") as f:
-                f.write(fixture_source(re.sub(r"[^A-Za-z0-9_]", "_", pkgpath.split("/")[-1]), pkgpath).replace('"probe.test/obj"', '"obj.test/obj"'))
+                f.write(fixture_source(re.sub(r"[^A-Za-z0-9_]", "_", pkgpath.split("/")[-1]), pkgpath, types_only).replace('"probe.test/obj"', '"obj.test/obj"'))
         with open(os.path.join(self.dir, "go.mod"), "w") as f:
             f.write("module probe.test\n\ngo 1.21\n\nrequire (\n%s\n)\n\nreplace (\n%s\n)\n" %
                     ("\n".join("\t" + r for r in req), "\n".join("\t" + r for r in rep)))
         shutil.copy(os.path.join(core.REPO, "go.sum"), os.path.join(self.dir, "go.sum"))
 
     # ------------------------------------------------------------------ packages
-    def add(self, name, source, ctor="NewGontainer", stub=False, with_local=True):
+    def add(self, name, source, ctor="NewGontainer", stub=False, with_local=True, ctype="Gontainer"):
         d = os.path.join(self.dir, name)
         os.makedirs(d, exist_ok=True)
         src = source
@@ -90,7 +91,11 @@ class Probe:
             f.write(src)
         if with_local:
             with open(os.path.join(d, "local.go"), "w") as f:
-                f.write(fixture_source(pkg, ".").replace('"probe.test/obj"', '"obj.test/obj"'))
+                f.write(fixture_source(pkg, ".", self.types_only).replace('"probe.test/obj"', '"obj.test/obj"'))
+        if stub:
+            with open(os.path.join(d, "reg.go"), "w") as f:
+                f.write('//go:build gontainerstub\n\npackage %s\n\nimport (\n\t"reflect"\n\n\t"probe.test/rt"\n)\n\nfunc init() {\n'
+                        '\trt.RegisterStub("%s", reflect.TypeOf((*%s)(nil)), func() any { return %s() })\n}\n' % (pkg, name, ctype, ctor))
         if not stub:
             ctors = "\n".join('\t\t"%s": %s,' % (c, c) for c in CTORS) if with_local else ""
             with open(os.path.join(d, "reg.go"), "w") as f:
@@ -117,7 +122,7 @@ class Probe:
             unknown = [k for k in self.failed if k not in self.pkgs]
             if unknown or not self.failed:
                 raise core.InfraError("probe infrastructure does not compile:\n" + p.stdout[-3000:])
-        good = [n for n in names if n not in self.failed and not self.pkgs[n]["stub"]]
+        good = [n for n in names if n not in self.failed]
         with open(os.path.join(self.dir, "main.go"), "w") as f:
             f.write("package main\n\nimport (\n\t\"probe.test/rt\"\n%s\n)\n\nfunc main() { rt.Main() }\n" %
                     "\n".join('\t_ "probe.test/%s"' % n for n in good))
@@ -125,7 +130,7 @@ class Probe:
         for n in self.failed:
             shutil.move(os.path.join(self.dir, n), os.path.join(self.dir, "_failed_" + n))
         out = os.path.join(self.dir, "probe.bin")
-        cmd = ["go", "build"] + (["-race"] if race else []) + ["-o", out, "."]
+        cmd = ["go", "build"] + (["-race"] if race else []) + (["-tags", tags] if tags else []) + ["-o", out, "."]
         core.sh(cmd, cwd=self.dir, timeout=3600)
         self.bin = out
         return good
